@@ -30,8 +30,12 @@ class LoopMixin:
             return list(inv.items())
         return [(f"i{k}", s) for k, s in enumerate(inv)]
 
-    def havoc(self, st, names, fields, spec, node):
+    def havoc(self, st, names, fields, spec, node, alloc=False):
         h = st.copy()
+        if alloc:
+            a0 = st.alloc if st.alloc is not None else z3.Const("alloc0", z3.ArraySort(T.RefSort, z3.BoolSort()))
+            h.alloc = z3.Const(fresh_name("alloc"), a0.sort())
+            h.assume(z3.IsSubset(a0, h.alloc))  # objects are never deallocated
         for n in sorted(names):
             v = st.env.get(n)
             if v is None:
@@ -51,25 +55,65 @@ class LoopMixin:
                 h.heap[k] = z3.Const(fresh_name(f"H_{k[0]}_{k[1]}"), st.heap[k].sort())
         return h
 
-    def check_havoc_complete(self, before: State, after: State, names, fields, node):
+    def check_havoc_complete(self, before: State, after: State, names, fields, node, collect=None):
+        """Everything the body changed must have been havocked.  With `collect` (discovery pass) the
+        missing names / heap fields are gathered instead of being an internal error."""
         for k, v in after.env.items():
             if k in names or k.startswith("_ghost"):
                 continue
             b = before.env.get(k)
             if b is None:
                 continue  # loop-local variable
-            if v is not b and not (v is not None and b is not None and not v.is_py and not b.is_py and z3.eq(v.term, b.term)) and not (is_const(v) and is_const(b) and v.py == b.py):
-                if v is not None and v.is_py and b.is_py and v.py is b.py:
-                    continue
-                raise ContractMisfit(f"internal: loop at line {node.lineno} changes '{k}' which was not havocked")
+            if v is b:
+                continue
+            if v is not None and not v.is_py and not b.is_py and z3.eq(v.term, b.term):
+                continue
+            if v is not None and is_const(v) and is_const(b) and v.py == b.py:
+                continue
+            if v is not None and v.is_py and b.is_py and v.py is b.py:
+                continue
+            if collect is not None:
+                collect[0].add(k)
+                continue
+            raise ContractMisfit(f"internal: loop at line {node.lineno} changes '{k}' which was not havocked")
         for k, arr in after.heap.items():
             if k[1] in fields or "*" in fields:
                 continue
             b = before.heap.get(k)
-            if b is not None and not z3.eq(arr, b):
-                raise ContractMisfit(f"internal: loop at line {node.lineno} writes heap field {k} which was not havocked")
-            if b is None and not arr.decl().name().startswith("H0_"):
-                raise ContractMisfit(f"internal: loop at line {node.lineno} writes heap field {k} which was not havocked")
+            if b is not None and z3.eq(arr, b):
+                continue
+            if b is None and arr.decl().name().startswith("H0_"):
+                continue
+            if collect is not None:
+                collect[1].add(k[1])
+                continue
+            raise ContractMisfit(f"internal: loop at line {node.lineno} writes heap field {k} which was not havocked")
+        if after.alloc is not None and (before.alloc is None or not z3.eq(after.alloc, before.alloc)):
+            if collect is not None:
+                collect[2].add("alloc")
+
+    def discover_mods(self, run_body, names, fields):
+        """Discovery passes: execute the body from a havocked state with all obligations discarded, until
+        the set of modified variables / heap fields is stable (constructors and model methods write fields
+        that no syntactic scan sees)."""
+        for _ in range(6):
+            n_ob = len(self.obligations)
+            names_snapshot = dict(self._names)
+            pend = self.pending
+            found = (set(), set(), set())
+            try:
+                run_body(found)
+            finally:
+                del self.obligations[n_ob:]
+                self._names = names_snapshot
+                self.pending = pend
+            new_n = found[0] - names
+            new_f = found[1] - fields
+            if not new_n and not new_f:
+                return bool(found[2])
+            names |= new_n
+            fields |= new_f
+        raise ContractMisfit("loop modification set did not stabilise")
 
     def ghost_assigned(self, body):
         out = set()
@@ -151,8 +195,16 @@ class LoopMixin:
             s2.assume(cond)
             res.append((s2, Outcome("raise", exc=exc, line=getattr(n, "lineno", None))))
             st.assume(z3.Not(cond))
-        info = self.iter_info(itv, st, node)
         spec, htxt = self.loop_spec(node)
+        if spec is not None and spec.unroll and itv.is_py and isinstance(itv.py, (set, frozenset)):
+            # literal set unrolled in sorted order at the contract's request: the body's independence of the
+            # iteration order is then an assumption of this contract (recorded)
+            self._unroll_sets = True
+            self.assumptions_used.add(f"iteration order of the literal set at line {node.lineno} taken as sorted (order-independence of the loop body not proved)")
+        try:
+            info = self.iter_info(itv, st, node)
+        finally:
+            self._unroll_sets = False
         if info.kind == "concrete" and (spec is None or spec.unroll):
             return res + self.unroll(node, info.items, st)
         if spec is None:
@@ -192,45 +244,56 @@ class LoopMixin:
         for nm, src in self.inv_items(spec):
             self.oblige(st, self.clause(src, st), "inv.init", f"{nm}@L{node.lineno}", node, info={"clause": src})
         # 2. arbitrary iteration
-        h = self.havoc(st, names - tn, fields, spec, node)
-        if info.kind == "indexed":
-            i = z3.Int(fresh_name(ix))
-            h.assume(z3.And(i >= 0, i < info.n))
-            h.env[ix] = Val(T.INT, i)
-            item = info.item(i)
-            for f in info.facts(i):
-                h.assume(f)
-        else:
-            d = fresh(T.Set(info.elem), dn)
-            x = fresh(info.elem, "elem")
-            h.env[dn] = Val(T.Set(info.elem), d)
-            h.assume(z3.IsSubset(d, info.set_term))
-            h.assume(z3.Select(info.set_term, x))
-            h.assume(z3.Not(z3.Select(d, x)))
-            item = Val(info.elem, x)
-        for nm, src in self.inv_items(spec):
-            h.assume(z3bool(self.clause(src, h)))
-        self.assume_allocated(h, item)
-        hb = h.copy()
-        self.bind_target(node.target, item, hb, node)
         exits = []
-        body_in = hb.copy()
-        for s2, o in self.exec_block(node.body, hb):
-            if o.kind in ("normal", "continue"):
-                self.check_havoc_complete(body_in, s2, names | tn | set(ghosts), fields, node)
-                if info.kind == "indexed":
-                    s2.env[ix] = Val(T.INT, i + 1)
-                else:
-                    s2.env[dn] = Val(T.Set(info.elem), z3.Store(d, x, z3.BoolVal(True)))
-                for nm, src in self.inv_items(spec):
-                    self.oblige(s2, self.clause(src, s2), "inv.step", f"{nm}@L{node.lineno}", node, info={"clause": src})
-            elif o.kind == "break":
-                self.check_havoc_complete(body_in, s2, names | tn | set(ghosts), fields, node)
-                exits.append(s2)
+        alloc_changes = [False]
+
+        def iteration(collect=None):
+            h = self.havoc(st, names - tn, fields, spec, node, alloc=alloc_changes[0])
+            if info.kind == "indexed":
+                i = z3.Int(fresh_name(ix))
+                h.assume(z3.And(i >= 0, i < info.n))
+                h.env[ix] = Val(T.INT, i)
+                item = info.item(i)
+                for f in info.facts(i):
+                    h.assume(f)
             else:
-                res.append((s2, o))
+                d = fresh(T.Set(info.elem), dn)
+                x = fresh(info.elem, "elem")
+                h.env[dn] = Val(T.Set(info.elem), d)
+                h.assume(z3.IsSubset(d, info.set_term))
+                h.assume(z3.Select(info.set_term, x))
+                h.assume(z3.Not(z3.Select(d, x)))
+                item = Val(info.elem, x)
+            for nm, src in self.inv_items(spec):
+                h.assume(z3bool(self.clause(src, h)))
+            self.assume_allocated(h, item)
+            hb = h.copy()
+            self.bind_target(node.target, item, hb, node)
+            body_in = hb.copy()
+            out_res = []
+            for s2, o in self.exec_block(node.body, hb):
+                if o.kind in ("normal", "continue"):
+                    self.check_havoc_complete(body_in, s2, names | tn | set(ghosts), fields, node, collect)
+                    if collect is not None:
+                        continue
+                    if info.kind == "indexed":
+                        s2.env[ix] = Val(T.INT, i + 1)
+                    else:
+                        s2.env[dn] = Val(T.Set(info.elem), z3.Store(d, x, z3.BoolVal(True)))
+                    for nm, src in self.inv_items(spec):
+                        self.oblige(s2, self.clause(src, s2), "inv.step", f"{nm}@L{node.lineno}", node, info={"clause": src})
+                elif o.kind == "break":
+                    self.check_havoc_complete(body_in, s2, names | tn | set(ghosts), fields, node, collect)
+                    if collect is None:
+                        exits.append(s2)
+                elif collect is None:
+                    out_res.append((s2, o))
+            return out_res
+
+        alloc_changes[0] = self.discover_mods(iteration, names, fields)
+        res += iteration()
         # 3. exit by exhaustion
-        e = self.havoc(st, names - tn, fields, spec, node)
+        e = self.havoc(st, names - tn, fields, spec, node, alloc=alloc_changes[0])
         if info.kind == "indexed":
             e.env[ix] = Val(T.INT, info.n)
         else:
@@ -287,38 +350,53 @@ class LoopMixin:
         fields |= cf
         for nm, src in self.inv_items(spec):
             self.oblige(st, self.clause(src, st), "inv.init", f"{nm}@L{node.lineno}", node, info={"clause": src})
-        h = self.havoc(st, names, fields, spec, node)
-        for nm, src in self.inv_items(spec):
-            h.assume(z3bool(self.clause(src, h)))
         res = []
-        pre = h.copy()
-        save = self.pending
-        self.pending = []
-        try:
-            c = self.cond(node.test, h)
-            pend = self.pending
-        finally:
-            self.pending = save
-        for cond, exc, n in pend:
-            s2 = pre.copy()
-            s2.assume(cond)
-            res.append((s2, Outcome("raise", exc=exc, line=getattr(n, "lineno", None))))
-            h.assume(z3.Not(cond))
         exits = []
-        if c is not False:
-            hb = h.copy()
-            hb.assume(z3bool(c))
-            body_in = hb.copy()
-            for s2, o in self.exec_block(node.body, hb):
-                if o.kind in ("normal", "continue"):
-                    self.check_havoc_complete(body_in, s2, names, fields, node)
-                    for nm, src in self.inv_items(spec):
-                        self.oblige(s2, self.clause(src, s2), "inv.step", f"{nm}@L{node.lineno}", node, info={"clause": src})
-                elif o.kind == "break":
-                    self.check_havoc_complete(body_in, s2, names, fields, node)
-                    exits.append(s2)
-                else:
-                    res.append((s2, o))
+        alloc_changes = [False]
+        state = {}
+
+        def iteration(collect=None):
+            h = self.havoc(st, names, fields, spec, node, alloc=alloc_changes[0])
+            for nm, src in self.inv_items(spec):
+                h.assume(z3bool(self.clause(src, h)))
+            out_res = []
+            pre = h.copy()
+            save = self.pending
+            self.pending = []
+            try:
+                c = self.cond(node.test, h)
+                pend = self.pending
+            finally:
+                self.pending = save
+            for cond, exc, n in pend:
+                s2 = pre.copy()
+                s2.assume(cond)
+                if collect is None:
+                    out_res.append((s2, Outcome("raise", exc=exc, line=getattr(n, "lineno", None))))
+                h.assume(z3.Not(cond))
+            state["c"], state["h"] = c, h
+            if c is not False:
+                hb = h.copy()
+                hb.assume(z3bool(c))
+                body_in = hb.copy()
+                for s2, o in self.exec_block(node.body, hb):
+                    if o.kind in ("normal", "continue"):
+                        self.check_havoc_complete(body_in, s2, names, fields, node, collect)
+                        if collect is not None:
+                            continue
+                        for nm, src in self.inv_items(spec):
+                            self.oblige(s2, self.clause(src, s2), "inv.step", f"{nm}@L{node.lineno}", node, info={"clause": src})
+                    elif o.kind == "break":
+                        self.check_havoc_complete(body_in, s2, names, fields, node, collect)
+                        if collect is None:
+                            exits.append(s2)
+                    elif collect is None:
+                        out_res.append((s2, o))
+            return out_res
+
+        alloc_changes[0] = self.discover_mods(iteration, names, fields)
+        res += iteration()
+        c, h = state["c"], state["h"]
         outs = []
         if c is not True:
             e = h.copy()
